@@ -409,7 +409,15 @@ func (i *Int) SetBytes(a []byte) kyber.Scalar {
 // Panics if max != 0 and the Int cannot be represented in max bytes.
 func (i *Int) LittleEndian(minByte, maxBytes int) []byte {
 	act := i.MarshalSize()
+	// V.Bytes(M) is zero-extended to the size of the modulus; the length that
+	// counts is that of the value itself ("at least min bytes but no more than
+	// max bytes long"), as in the default build where V.Bytes is minimal
+	// (only looked at when the caller asks for fewer than MarshalSize bytes,
+	// so the fixed-length use by the Ed25519 scalar stays value-independent)
 	vBytes := i.V.Bytes(i.M)
+	for len(vBytes) > minByte && vBytes[0] == 0 {
+		vBytes = vBytes[1:]
+	}
 	vSize := len(vBytes)
 	if vSize < act {
 		act = vSize
